@@ -5,7 +5,8 @@
    Conventions: bytes are N (< 256: [bytes_ok]); the half mask is a uint32 ([hm < 2^32]); [nchunks n c] is the
    chunk count as the Go code computes it, proved equal to ceil(n/c) in C17_roundtrip. *)
 From Coq Require Import NArith ZArith List.
-From M Require Import gen.Consts base.Bits64 model.LowEntropy proofs.Bits64Proofs proofs.Bits64LoopProofs proofs.LowEntropyProofs.
+From M Require Import gen.Consts base.Bits64 model.LowEntropy proofs.Bits64Proofs proofs.Bits64LoopProofs proofs.Bits64IntelProofs proofs.LowEntropyProofs proofs.LowEntropyWireProofs.
+From M Require model.Wire.
 Import ListNotations.
 Open Scope N_scope.
 
@@ -28,10 +29,26 @@ Theorem C17_pext_go_eq_spec : forall x mask, mask < W64 -> pext_go x mask = pext
 Proof. exact pext_go_eq_spec. Qed.
 Print Assumptions C17_pext_go_eq_spec.
 
-(* NOT PROVED (kept visible): the position-by-position rendering of the Intel pseudo code equals the structural one,
-     forall x mask, mask < W64 -> pdep_intel x mask = pdep x mask /\ pext_intel x mask = pext x mask.
-   [pdep]/[pext] recurse over the mask's bits (one constructor = one position m, halving TEMP = k+1), which is the
-   same algorithm; the three renderings are compared by the model runner on the sampled P lines. *)
+(* the position-by-position rendering of the Intel SDM pseudo code (bit index m, counter k; base/Bits64.v
+   pdep_intel / pext_intel) equals the structural definition: for every operand width n on the mask's low n bits,
+   hence at width 64 for every x and every mask < 2^64 *)
+Theorem C17_pdep_intel_width : forall (n : nat) x mask,
+  pdep_intel_loop n 0 0 x mask 0 = pdep x (mask mod 2 ^ N.of_nat n).
+Proof. exact pdep_intel_width. Qed.
+Print Assumptions C17_pdep_intel_width.
+
+Theorem C17_pext_intel_width : forall (n : nat) x mask,
+  pext_intel_loop n 0 0 x mask 0 = pext x (mask mod 2 ^ N.of_nat n).
+Proof. exact pext_intel_width. Qed.
+Print Assumptions C17_pext_intel_width.
+
+Theorem C17_pdep_intel_eq_spec : forall x mask, mask < W64 -> pdep_intel x mask = pdep x mask.
+Proof. exact pdep_intel_eq_spec. Qed.
+Print Assumptions C17_pdep_intel_eq_spec.
+
+Theorem C17_pext_intel_eq_spec : forall x mask, mask < W64 -> pext_intel x mask = pext x mask.
+Proof. exact pext_intel_eq_spec. Qed.
+Print Assumptions C17_pext_intel_eq_spec.
 
 (* the mode table of docs/protocol.md is exactly what buildLowEntropyParams implements *)
 Theorem C17_mode_table : forall mode c w,
@@ -113,6 +130,14 @@ Theorem C17_meta_ties_lengths : forall proto mode hm epl pl rot,
      (1 <= epl /\ nchunks epl c <= 8191 /\ pl = 8 * nchunks epl c)%Z).
 Proof. exact meta_ties_lengths. Qed.
 Print Assumptions C17_meta_ties_lengths.
+
+(* cross-model (C09): Wire.v's validity test of unmarshalled low-entropy data metadata (types 10 / 11) accepts exactly
+   the field combinations validate_meta accepts - the two transcriptions of validateLowEntropyDataAckMetadata agree *)
+Theorem C17_meta_agrees_with_wire : forall p mode mask elen plen rot : N,
+  (Wire.is_low_entropy p && Wire.le_meta_ok mode mask elen plen rot)%bool = true <->
+  validate_meta (Z.of_N p) (Z.of_N mode) mask (Z.of_N elen) (Z.of_N plen) (Z.of_N rot) = Ok tt.
+Proof. exact meta_agrees_with_wire. Qed.
+Print Assumptions C17_meta_agrees_with_wire.
 
 (* the documented vector *)
 Theorem C17_doc_vector :
